@@ -3,6 +3,7 @@
 TIER=${1:-quick}
 for D in /verif/seeded/*/; do
   N=$(basename $D); ID=${N%-*}
+  case "$N" in _*) continue;; esac
   OUT=$(/verif/tools/try_seeded.sh $D/patch.diff $TIER $ID 2>&1 | grep "^CHECK")
   echo "$N :: $OUT"
   python3 - "$D/meta.json" "$OUT" "$TIER" <<'PY'
